@@ -84,6 +84,7 @@ type c11Stmt struct {
 	With     int // 0 none, 1 ts+unit, 2 all options
 	Order    [][2]string
 	Limit    int
+	Renamed  map[string]string // identifier renaming applied to the base statement (nil: neutral names)
 }
 
 func (s c11Stmt) parts() []string {
@@ -195,6 +196,71 @@ func c11Relayout(stmt string, kwCase int, sep string) string {
 	return sb.String()
 }
 
+// c11NameSets: identifiers that contain or begin with keywords (ORDER, FROM, DESC, GROUP, LIMIT, IS, NULL,
+// AS, AND, WHERE, CASE, BY, HAVING, END, LIKE, NOT, IN, ON, SELECT, UNION ...). A statement written with them must
+// parse like the same statement with neutral names.
+var c11NameSets = []map[string]string{
+	{"a": "orders", "b": "fromage", "s": "description", "k": "group1", "v": "valueOf", "note": "notes", "c": "counted", "x": "limits", "u": "unions", "e": "selected", "l": "likes", "lit": "literal"},
+	{"a": "isActive", "b": "nullable", "s": "ascii", "k": "android", "v": "inStock", "note": "whereabouts", "c": "casex", "x": "byId", "u": "having1", "e": "endpoint", "l": "asc1", "lit": "notNull"},
+}
+
+// c11RenameText renames identifier tokens outside string literals and backticks.
+func c11RenameText(t string, m map[string]string) string {
+	var sb strings.Builder
+	isWord := func(c byte) bool {
+		return c == '_' || c >= 'a' && c <= 'z' || c >= 'A' && c <= 'Z' || c >= '0' && c <= '9'
+	}
+	for i := 0; i < len(t); {
+		c := t[i]
+		switch {
+		case c == '\'' || c == '`':
+			j := i + 1
+			for j < len(t) && t[j] != c {
+				j++
+			}
+			if j < len(t) {
+				j++
+			}
+			sb.WriteString(t[i:j])
+			i = j
+		case isWord(c):
+			j := i
+			for j < len(t) && isWord(t[j]) {
+				j++
+			}
+			w := t[i:j]
+			if r, ok := m[w]; ok && !(j < len(t) && t[j] == '(') {
+				w = r
+			}
+			sb.WriteString(w)
+			i = j
+		default:
+			sb.WriteByte(c)
+			i++
+		}
+	}
+	return sb.String()
+}
+
+func (s c11Stmt) rename(m map[string]string) c11Stmt {
+	r := s
+	rn := func(t string) string { return c11RenameText(t, m) }
+	r.Items, r.Names = nil, nil
+	for _, it := range s.Items {
+		r.Items = append(r.Items, rn(it))
+	}
+	for _, n := range s.Names {
+		r.Names = append(r.Names, rn(n))
+	}
+	r.Where, r.WhereLow, r.Group, r.Having, r.HavLow = rn(s.Where), rn(s.WhereLow), rn(s.Group), rn(s.Having), rn(s.HavLow)
+	r.Order = nil
+	for _, o := range s.Order {
+		r.Order = append(r.Order, [2]string{rn(o[0]), o[1]})
+	}
+	r.Renamed = m
+	return r
+}
+
 // layout renders the statement with a keyword case and a separator.
 func (s c11Stmt) layout(kwCase int, sep string) string {
 	return c11Relayout(strings.Join(s.parts(), " "), kwCase, sep)
@@ -254,10 +320,22 @@ func c11Stmts(tier string) []c11Stmt {
 			}
 		}
 	}
+	// the same statements with keyword-bearing identifiers (every 3rd one, shifted per name set; JOIN statements keep their names)
+	base := len(out)
+	for ni, m := range c11NameSets {
+		for i := ni; i < base; i += 3 {
+			if out[i].Join == "" && out[i].Alias == "" {
+				out = append(out, out[i].rename(m))
+			}
+		}
+	}
 	return out
 }
 
 func normSpaces(s string) string { return strings.Join(strings.Fields(s), " ") }
+
+// noSpaces: MEASURES / DEFINE texts are kept as re-joined tokens ("PREV ( v )"); only the token sequence is compared
+func noSpaces(s string) string { return strings.Join(strings.Fields(s), "") }
 
 // c11Fidelity compares the parsed configuration with what was written.
 func c11Fidelity(s c11Stmt, cfg *types.Config, cond string) (field, what string) {
@@ -404,6 +482,7 @@ func (c11) Plan(tier string) []fw.Unit {
 	for s := 0; s < 8; s++ {
 		us = append(us, fw.Unit{Check: "C11", Kind: "grammar", Tier: tier, Spec: fw.Spec(c11Spec{"grammar", s, 8, 0})})
 	}
+	us = append(us, fw.Unit{Check: "C11", Kind: "match", Tier: tier, Spec: fw.Spec(c11Spec{"match", 0, 1, 0})})
 	return us
 }
 
@@ -463,6 +542,8 @@ func (c11) Run(u fw.Unit) fw.Result {
 			})
 		}
 		a.sample(map[string]any{"prefixes": c11Prefixes, "hostile_bytes": fmt.Sprintf("%q", c11HostileBytes)})
+	case "match":
+		c11RunMatches(a)
 	case "grammar":
 		stmts := c11Stmts(u.Tier)
 		seps := []string{" ", "\n", "\t ", "  "}
@@ -513,8 +594,22 @@ func (c11) Run(u fw.Unit) fw.Result {
 				}
 			}
 			// execution equivalence of two layouts for direct queries
-			if s.Window == "" && s.Join == "" && si%5 == 0 {
+			if s.Window == "" && s.Join == "" && (si%5 == 0 || s.Renamed != nil) {
 				rows := []Row{{"a": 2, "b": 1, "s": "x", "note": "LIMIT 5", "order": 1, "limit": 2}, {"a": 1, "b": 2, "s": "y", "note": "FROM", "order": 3, "limit": 4}, {"a": 3, "b": 3, "s": "x", "note": "ORDER BY x", "order": 5, "limit": 6}}
+				if s.Renamed != nil {
+					var rr []Row
+					for _, row := range rows {
+						nr := Row{}
+						for k, v := range row {
+							if n, ok := s.Renamed[k]; ok {
+								k = n
+							}
+							nr[k] = v
+						}
+						rr = append(rr, nr)
+					}
+					rows = rr
+				}
 				r1, e1, _, _ := syncEval(canonical, rows)
 				r2, e2, _, _ := syncEval(s.layout(1, "\n"), rows)
 				a.r.Evaluations += 2
@@ -531,6 +626,163 @@ func (c11) Run(u fw.Unit) fw.Result {
 	return a.result()
 }
 
+// ---- MATCH_RECOGNIZE statements ----
+
+type c11Match struct {
+	Partition []string
+	Measures  [][2]string // expr, alias
+	AllRows   bool
+	Skip      string // "", "PAST LAST ROW", "TO NEXT ROW", "TO FIRST B", "TO LAST B", "TO B"
+	Pattern   string
+	Defines   [][2]string
+}
+
+func (m c11Match) sql() string {
+	p := []string{"SELECT * FROM stream MATCH_RECOGNIZE ("}
+	if len(m.Partition) > 0 {
+		p = append(p, "PARTITION BY "+strings.Join(m.Partition, ", "))
+	}
+	p = append(p, "ORDER BY ts")
+	var ms []string
+	for _, x := range m.Measures {
+		ms = append(ms, x[0]+" AS "+x[1])
+	}
+	p = append(p, "MEASURES "+strings.Join(ms, ", "))
+	if m.AllRows {
+		p = append(p, "ALL ROWS PER MATCH")
+	} else {
+		p = append(p, "ONE ROW PER MATCH")
+	}
+	if m.Skip != "" {
+		p = append(p, "AFTER MATCH SKIP "+m.Skip)
+	}
+	p = append(p, "PATTERN ("+m.Pattern+")")
+	var ds []string
+	for _, d := range m.Defines {
+		ds = append(ds, d[0]+" AS "+d[1])
+	}
+	p = append(p, "DEFINE "+strings.Join(ds, ", "), ")")
+	return strings.Join(p, " ")
+}
+
+func c11Matches() []c11Match {
+	var out []c11Match
+	for _, part := range [][]string{nil, {"k"}, {"k", "site"}} {
+		for _, all := range []bool{false, true} {
+			for _, skip := range []string{"", "PAST LAST ROW", "TO NEXT ROW", "TO FIRST B", "TO LAST B", "TO B"} {
+				for pi, pat := range []string{"A B+", "A (B | C)* C", "A{2} B?"} {
+					m := c11Match{Partition: part, AllRows: all, Skip: skip, Pattern: pat,
+						Measures: [][2]string{{"MATCH_NUMBER()", "mn"}, {"LAST(id)", "l"}, {"FIRST(A.v)", "fa"}},
+						Defines:  [][2]string{{"A", "v > 1"}, {"B", "v < PREV(v)"}}}
+					if pi == 1 {
+						m.Defines = append(m.Defines, [2]string{"C", "note = 'DEFINE B AS x'"})
+					}
+					out = append(out, m)
+				}
+			}
+		}
+	}
+	return out
+}
+
+func c11RunMatches(a *acc) {
+	seps := []string{" ", "\n", "\t ", "  "}
+	skipWant := map[string]types.AfterMatchSkip{"": types.SkipPastLastRow, "PAST LAST ROW": types.SkipPastLastRow, "TO NEXT ROW": types.SkipToNextRow,
+		"TO FIRST B": types.SkipToFirst, "TO LAST B": types.SkipToLast, "TO B": types.SkipToVariable}
+	rows := []Row{{"id": 1, "k": "a", "site": "x", "v": 2, "ts": 1, "note": "n"}, {"id": 2, "k": "a", "site": "x", "v": 1, "ts": 2, "note": "DEFINE B AS x"},
+		{"id": 3, "k": "a", "site": "x", "v": 3, "ts": 3, "note": "n"}, {"id": 4, "k": "a", "site": "x", "v": 2, "ts": 4, "note": "n"}, {"id": 5, "k": "a", "site": "x", "v": 1, "ts": 5, "note": "DEFINE B AS x"}}
+	for mi, m := range c11Matches() {
+		canonical := m.sql()
+		cfg0, _, err0, p0 := c11Parse(canonical)
+		a.r.Evaluations++
+		a.r.States++
+		a.r.Transitions++
+		cs := map[string]any{"sql": canonical}
+		if p0 != "" || err0 != nil || cfg0 == nil {
+			a.fail("C11|grammar-statement-rejected|match_recognize", fmt.Sprintf("MATCH_RECOGNIZE statement of the documented grammar rejected: %v %s", err0, firstLine(p0)), cs, nil, nil)
+			continue
+		}
+		a.r.Nontrivial++
+		mr := cfg0.MatchRecognize
+		bad := ""
+		switch {
+		case mr == nil:
+			bad = "no MatchRecognize clause in the configuration"
+		case !reflect.DeepEqual(append([]string{}, mr.PartitionBy...), append([]string{}, m.Partition...)):
+			bad = fmt.Sprintf("PartitionBy %v, written %v", mr.PartitionBy, m.Partition)
+		case len(mr.OrderBy) != 1 || mr.OrderBy[0].Expression != "ts":
+			bad = fmt.Sprintf("OrderBy %v, written [ts]", mr.OrderBy)
+		case len(mr.Measures) != len(m.Measures):
+			bad = fmt.Sprintf("Measures %v, written %v", mr.Measures, m.Measures)
+		case (mr.RowsPerMatch == types.RowsPerMatchAll) != m.AllRows:
+			bad = fmt.Sprintf("RowsPerMatch %v, written all=%v", mr.RowsPerMatch, m.AllRows)
+		case mr.Skip != skipWant[m.Skip]:
+			bad = fmt.Sprintf("Skip %v, written %q", mr.Skip, m.Skip)
+		case strings.HasSuffix(m.Skip, " B") && mr.SkipSymbol != "B":
+			bad = fmt.Sprintf("SkipSymbol %q, written %q", mr.SkipSymbol, m.Skip)
+		case mr.Pattern == nil:
+			bad = "Pattern missing"
+		case len(cfg0.OrderBy) != 0:
+			bad = fmt.Sprintf("the statement has no query-level ORDER BY but the configuration's OrderBy is %v", cfg0.OrderBy)
+		case len(mr.Defines) != len(m.Defines):
+			bad = fmt.Sprintf("Defines %v, written %v", mr.Defines, m.Defines)
+		}
+		if bad == "" {
+			for i, x := range m.Measures {
+				if mr.Measures[i].Alias != x[1] || noSpaces(mr.Measures[i].Expr) != noSpaces(x[0]) {
+					bad = fmt.Sprintf("Measures %v, written %v", mr.Measures, m.Measures)
+				}
+			}
+			for i, d := range m.Defines {
+				if mr.Defines[i].Symbol != d[0] || noSpaces(mr.Defines[i].Cond) != noSpaces(d[1]) {
+					bad = fmt.Sprintf("Defines %+v, written %v", mr.Defines, m.Defines)
+				}
+			}
+		}
+		if bad != "" {
+			a.fail("C11|fidelity|match_recognize", canonical+" : "+bad, cs, nil, nil)
+		}
+		base := c11ConfigJSON(cfg0)
+		a.outcome(base)
+		for kc := 0; kc < 3; kc++ {
+			for _, sep := range seps {
+				if kc == 0 && sep == " " {
+					continue
+				}
+				sql := c11Relayout(canonical, kc, sep)
+				cfg, _, err, p := c11Parse(sql)
+				a.r.Evaluations++
+				a.r.Transitions++
+				if p != "" || err != nil {
+					a.fail("C11|layout|rejected", fmt.Sprintf("re-laid-out statement rejected (%v %s): %q", err, p, sql), map[string]any{"sql": sql, "canonical": canonical}, nil, nil)
+					continue
+				}
+				if got := c11ConfigJSON(cfg); got != base {
+					a.fail(fmt.Sprintf("C11|layout|config-differs|case=%d|sep=%q", kc, sep), fmt.Sprintf("layout %q parses differently from %q", sql, canonical), map[string]any{"sql": sql, "canonical": canonical}, base, got)
+				}
+			}
+		}
+		if mi%6 == 0 {
+			run := func(sql string) string {
+				r := detExec(sql, detOpts{Eager: true}, func(e *Env) {
+					for _, row := range rows {
+						e.Emit(copyVal(row).(map[string]any))
+					}
+				})
+				return js(r.Batches) + r.ExecErr + r.Status.String()
+			}
+			r1, r2 := run(canonical), run(c11Relayout(canonical, 1, "\n"))
+			a.r.Evaluations += 2
+			if r1 != r2 {
+				a.fail("C11|layout|results-differ", fmt.Sprintf("%q gives %s ; lower-case/newline layout gives %s", canonical, r1, r2), cs, r1, r2)
+			}
+		}
+		if mi == 7 {
+			a.sample(map[string]any{"statement": canonical, "layouts_compared": 11})
+		}
+	}
+}
+
 func c11Shape(s c11Stmt) string {
 	hostile := strings.Contains(s.Where, "'LIMIT") || strings.Contains(s.Where, "'ORDER") || strings.Contains(s.Where, "WHERE b") || strings.Contains(s.Where, "'FROM") || strings.Contains(s.Where, "'GROUP")
 	return fmt.Sprintf("window=%s|having=%v|with=%d|order=%d|limit=%v|join=%v|keyword-in-literal=%v", s.Window, s.Having != "", s.With, len(s.Order), s.Limit > 0, s.Join != "", hostile)
@@ -539,7 +791,7 @@ func c11Shape(s c11Stmt) string {
 func (c11) Describe(tier string) fw.Description {
 	return fw.Description{
 		Level: "model_checking",
-		Rule: "(a) totality: every token string of length 1..n over a 25-token alphabet (keywords, identifiers, literals, punctuation, a window call, a lone quote, a lone backtick) and every byte string of length 0..m over 16 hostile bytes appended to 6 valid prefixes is parsed (rsql.Parse) under panic capture and a 5 s hang watchdog; (b) fidelity: every statement generated from the documented grammar (DISTINCT, 5+1 select lists with aliases/backticked keyword identifiers/keyword-bearing literals, FROM alias, INNER/LEFT JOIN, 8 WHERE clauses incl. string literals containing LIMIT / ORDER BY / WHERE / FROM / GROUP BY, 5 window kinds, 3 HAVING, 3 WITH option sets, 6 ORDER BY lists (explicit and implicit directions mixed), LIMIT) is parsed and the returned configuration compared field by field with what was written; (c) layout: each statement in 3 keyword cases x 4 separators must give a deep-equal configuration, and equal EmitSync results for a subset; non-trivial = the input was accepted",
+		Rule: "(a) totality: every token string of length 1..n over a 25-token alphabet (keywords, identifiers, literals, punctuation, a window call, a lone quote, a lone backtick) and every byte string of length 0..m over 16 hostile bytes appended to 6 valid prefixes is parsed (rsql.Parse) under panic capture and a 5 s hang watchdog; (b) fidelity: every statement generated from the documented grammar (DISTINCT, 5+1 select lists with aliases/backticked keyword identifiers/keyword-bearing literals, FROM alias, INNER/LEFT JOIN, 8 WHERE clauses incl. string literals containing LIMIT / ORDER BY / WHERE / FROM / GROUP BY, 5 window kinds, 3 HAVING, 3 WITH option sets, 6 ORDER BY lists (explicit and implicit directions mixed), LIMIT; a third of them again with two sets of keyword-bearing identifiers such as orders, fromage, description, group1, isActive, nullable, whereabouts) is parsed and the returned configuration compared field by field with what was written; (b2) 108 MATCH_RECOGNIZE statements (PARTITION BY 0..2 columns, MEASURES, ONE/ALL ROWS PER MATCH, every AFTER MATCH SKIP form, 3 patterns, DEFINE incl. a literal containing DEFINE) with the clause compared field by field; (c) layout: each statement in 3 keyword cases x 4 separators must give a deep-equal configuration, and equal EmitSync results for a subset; non-trivial = the input was accepted",
 		Bounds:      map[string]any{"token_len": map[string]int{"quick": 5, "thorough": 6}, "byte_len": map[string]int{"quick": 4, "thorough": 5}},
 		Assumptions: []string{"the grammar is the one accepted by rsql.Parser (clause order HAVING, WITH, ORDER BY, LIMIT; '*' only as the first select item)", "hang = a single Parse taking more than 5 s of wall clock"},
 	}
